@@ -1025,6 +1025,32 @@ impl<C: Config, Q: Query> Snapshot<C, Q> {
                 )
                 .await;
 
+            // The query input and result are stored before the backward edges
+            // are registered: the edges make this query discoverable (backward
+            // projection walks the callers of a firewall and repairs them by
+            // id), and whoever finds it must be able to load its input.
+            self.engine()
+                .computation_graph
+                .database
+                .query_store
+                .insert(
+                    self.query_id().compact_hash_128(),
+                    query_input,
+                    &mut tx,
+                )
+                .await;
+
+            self.engine()
+                .computation_graph
+                .database
+                .query_store
+                .insert(
+                    self.query_id().compact_hash_128(),
+                    query_result,
+                    &mut tx,
+                )
+                .await;
+
             for edge in forward_edge_order.0.iter() {
                 match edge {
                     NodeDependency::Single(query_id) => {
@@ -1060,28 +1086,6 @@ impl<C: Config, Q: Query> Snapshot<C, Q> {
                 .database
                 .forward_edge_observation
                 .insert(*self.query_id(), forward_edge_observations, &mut tx)
-                .await;
-
-            self.engine()
-                .computation_graph
-                .database
-                .query_store
-                .insert(
-                    self.query_id().compact_hash_128(),
-                    query_input,
-                    &mut tx,
-                )
-                .await;
-
-            self.engine()
-                .computation_graph
-                .database
-                .query_store
-                .insert(
-                    self.query_id().compact_hash_128(),
-                    query_result,
-                    &mut tx,
-                )
                 .await;
 
             // Track external input queries by type for refresh support
